@@ -53,7 +53,7 @@ struct Event { uint64_t seq; int32_t tid; uint32_t kind; int64_t a; int64_t b; }
 struct Stats {
     uint64_t steps, decisions, preempts, sync_ops, fp;
     uint64_t threads, max_live_threads;
-    uint64_t f_spurious, f_notify_choice, f_barging;
+    uint64_t f_spurious, f_notify_choice, f_barging, f_alloc_recycle, f_alloc_quarantined;
     uint64_t p_mutex_contended, p_notify_empty, p_spin_block, p_cv_wait,
         p_notify_multi, p_yield, p_quiesce;
     uint64_t dec_overflow;
@@ -112,6 +112,14 @@ int rt_blocked_count();            // threads (other than caller) not exited
 unsigned rt_hw_concurrency();
 uint64_t rt_next_rng_seed();       // per-run deterministic seeds for RNG shims
 bool rt_rng_degenerate();
+
+// ---- environment decisions (allocator seam) and single-task fingerprints ------
+// a seeded decision in [0, n): 0 is the default; random mode draws a non-zero
+// value with probability permille/1000.  Recorded in the decision list, so it
+// replays and shrinks like a scheduling decision.
+uint32_t rt_choice(uint32_t n, uint32_t permille);
+void rt_note(uint32_t op, uint32_t v);           // mix an (operation, outcome) pair into the fingerprint
+void rt_count_alloc(bool recycled, bool quarantined);
 
 // ---- history / ledgers kept outside sanitizer view -------------------------
 uint64_t rt_event(uint32_t kind, int64_t a, int64_t b);
